@@ -21,7 +21,7 @@ ASSUMPTIONS = ["order is certified on the executed problem classes (genericity o
 STEPS = [1.0, -0.75, 1.5]
 TAU = {"float64": 1e-10, "longdouble": 1e-10, "float32": 3e-4}
 FLOORS = {"quick": {"exact_probes_accepted": 150, "embedded_probes": 9, "richardson_probes_accepted": 12, "slope_probes": 20},
-          "thorough": {"exact_probes_accepted": 1500, "embedded_probes": 27, "richardson_probes_accepted": 200, "slope_probes": 60}}
+          "thorough": {"exact_probes_accepted": 900, "embedded_probes": 27, "richardson_probes_accepted": 200, "slope_probes": 60}}
 CASE_TIMEOUT = 900
 HARMONIC_ONLY = ("ABAs5o6HSolver", "BABs9o7HSolver")
 
